@@ -94,12 +94,19 @@ Lemma list_since_max_differs : redis_run cfgL w_list_since_max <> mem_run cfgL w
 Proof. differ. Qed.
 
 (* ---- time dependent (models only) ---- *)
-(* a version-suppressed publish refreshes the history TTL in the memory broker
-   (historyHub.add sets expires[ch] before the version check) but not in Redis *)
-Definition hpv60 (v : N) := mkPO 5 60 0 "" 0 false v "".
+(* a version-suppressed publish used to refresh the history TTL in the memory broker only (fixed in
+   /repo by 9899a62b: the version check now precedes the TTL bookkeeping; with it this sequence agrees) *)
+Definition hpv60 (v : N) (d : bool) := mkPO 5 60 0 "" 0 d v "".
+Definition cfg100 := mkCfg false 100.
 Definition w_suppressed_ttl :=
-  [OpPublish "a" "x1" (hpv60 5) "N0"; OpTick 50000; OpPublish "a" "x2" (hpv60 3) "N1"; OpTick 20000; hist_all "a" "N2"].
-Lemma suppressed_ttl_differs : redis_run cfgS w_suppressed_ttl <> mem_run cfgS w_suppressed_ttl.
+  [OpPublish "a" "x1" (hpv60 5 false) "N0"; OpTick 50000; OpPublish "a" "x2" (hpv60 3 false) "N1"; OpTick 20000; hist_all "a" "N2"].
+Lemma suppressed_ttl_agrees_fixed : redis_run cfg100 w_suppressed_ttl = mem_run cfg100 w_suppressed_ttl.
+Proof. vm_compute. reflexivity. Qed.
+(* residue: with UseDelta the previous-publication lookup (getLocked) still runs first and refreshes
+   the META TTL in the memory broker, the Redis script returns before any EXPIRE *)
+Definition w_suppressed_delta_ttl :=
+  [OpPublish "a" "x1" (hpv60 5 false) "N0"; OpTick 90000; OpPublish "a" "x2" (hpv60 3 true) "N1"; OpTick 60000; hist_all "a" "N2"].
+Lemma suppressed_delta_ttl_differs : redis_run cfg100 w_suppressed_delta_ttl <> mem_run cfg100 w_suppressed_delta_ttl.
 Proof. differ. Qed.
 (* meta TTL shorter than history TTL: Redis keeps serving the old entries under a new epoch *)
 Definition cfgM := mkCfg false 10.
